@@ -524,6 +524,13 @@ func valueSources(info *types.Info, body ast.Node, e ast.Expr, depth int) []ast.
 	seen := map[types.Object]bool{}
 	var rec func(e ast.Expr, d int)
 	rec = func(e ast.Expr, d int) {
+		// a conversion keeps the value
+		if cl, isC := ast.Unparen(e).(*ast.CallExpr); isC && len(cl.Args) == 1 {
+			if tv, has := info.Types[cl.Fun]; has && tv.IsType() {
+				rec(cl.Args[0], d)
+				return
+			}
+		}
 		id, ok := ast.Unparen(e).(*ast.Ident)
 		if !ok || d == 0 {
 			out = append(out, e)
